@@ -7,6 +7,18 @@ import os
 from .. import AnalysisError
 from ..absint import Evaluator, descriptor, Unsupported, AStr, ADict
 from ..report import ob_ok, ob_fail, VERIF
+from ..model import fold_const
+
+
+def _module_env(fi):
+    """module-level literal constants (dicts, strings, tuples) visible to the function"""
+    env = {}
+    for name, node in fi.module.constants.items():
+        try:
+            env[name] = fold_const(node, fi.module)
+        except (ValueError, TypeError):
+            continue
+    return env
 
 SPEC = json.load(open(os.path.join(VERIF, "spec", "descriptors.json")))
 KINDS = SPEC["kinds"]
@@ -38,7 +50,7 @@ def tt_compatible(repo):
                     right = descriptor(kr, lab[1], od[1])
                     ev = Evaluator()
                     try:
-                        res = ev.run_function(fi.node, {params[0]: left, params[1]: right, params[2]: legacy})
+                        res = ev.run_function(fi.node, dict(_module_env(fi), **{params[0]: left, params[1]: right, params[2]: legacy}))
                     except Unsupported as err:
                         raise AnalysisError("compatible(): construct outside the predicate language: %s" % err, fi.where())
                     got = res[0] == "return" and bool(res[1]) if not isinstance(res[1], AStr) else True
@@ -82,7 +94,7 @@ def tt_complement(repo, two_element_lists=False):
                     n += 1
                     ev = Evaluator()
                     try:
-                        res = ev.run_function(fi.node, {params[0]: d, params[1]: list(cand)})
+                        res = ev.run_function(fi.node, dict(_module_env(fi), **{params[0]: d, params[1]: list(cand)}))
                     except Unsupported as err:
                         raise AnalysisError("find_complementary_bonding_descriptor(): construct outside the "
                                             "predicate language: %s" % err, fi.where())
